@@ -29,7 +29,7 @@ ASSUMPTIONS = ["single-threaded interleavings of generator steps only: the harne
                "a use-after-unmap is detected when it crashes the forked child or yields wrong values; there is no sanitizer under CPython",
                "'dropped' generators are finalised by CPython reference counting (+ gc.collect())"]
 EXHAUSTIVE = None
-MUST_HIT = ['generator-advanced-thousands-of-times', 'write-next-to-generator-position', 'mixed-access-modes', 'failing-access-while-shared', 'owner-finishes-before-borrower-advances', 'generator-dropped', 'write-while-two-generators-live', 'ctx-exit-before-generator-advance',
+MUST_HIT = ['refused-write-while-shared', 'generator-advanced-thousands-of-times', 'write-next-to-generator-position', 'mixed-access-modes', 'failing-access-while-shared', 'owner-finishes-before-borrower-advances', 'generator-dropped', 'write-while-two-generators-live', 'ctx-exit-before-generator-advance',
             'generator-closed-early', 'nested-contexts', 'started-inside-context-advanced-after-exit']
 N = 131072      # int64 elements = 1 MB (well above malloc's mmap threshold, so an unmapped region is really gone); thorough: 4 MB
 GPARAMS = [dict(chunklen=25000), dict(chunklen=17500, stepsize=37500, startindex=250, endindex=125000),
@@ -305,6 +305,16 @@ def child_run(path, actions, finish, hmode='r+', pset=0):
             model[i] = act[2]
             a[i + 1:i + 4] = act[2] + 1
             model[i + 1:i + 4] = act[2] + 1
+        elif k == 'rowrite':
+            # a write that is refused when the map in use is read-only (a handled failure, like 'badread'), and simply takes
+            # effect when it is not: either way the other users of the map must not notice
+            i = act[1] % N
+            try:
+                a[i] = act[2]
+            except Exception:
+                pass
+            else:
+                model[i] = act[2]
     for f in finish:
         if f[0] == 'exit':
             if ctxs:
@@ -351,6 +361,8 @@ def execute(ctx, spec):
         out.cls('mixed-access-modes')
     if any(a[0] == 'badread' for a in actions):
         out.cls('failing-access-while-shared')
+    if any(a[0] == 'rowrite' for a in actions):
+        out.cls('refused-write-while-shared')
     out.nontrivial = classify(actions, finish, out)
     base = base_array(ctx)
     with ctx.scratch() as d:
@@ -464,7 +476,10 @@ def st_schedule(draw):
     n = draw(st.integers(3, 25))
     acts = []
     for _ in range(n):
-        k = draw(st.sampled_from(['start', 'next', 'next', 'next', 'close', 'drop', 'enter', 'exit', 'read', 'write', 'badread', 'wnear']))
+        k = draw(st.sampled_from(['start', 'next', 'next', 'next', 'close', 'drop', 'enter', 'exit', 'read', 'write', 'badread', 'wnear', 'rowrite']))
+        if k == 'rowrite':
+            acts.append(['rowrite', draw(st.integers(0, N - 10)), draw(st.integers(-1000, 1000))])
+            continue
         if k == 'wnear' and draw(st.integers(0, 5)) == 1:
             acts.append([draw(st.sampled_from(['readhook', 'writehook'])), draw(st.integers(0, 2)), draw(st.sampled_from(['close', 'exhaust', 'drop']))])
             continue
@@ -506,6 +521,13 @@ def fixed_specs():
     for g, how, kind_ in itertools.product((0, 1), ('close', 'exhaust', 'drop'), ('readhook', 'writehook')):
         yield {'actions': [['start', g], ['next', g], [kind_, g, how], ['read', 9]], 'finish': [], 'pset': 3}
         yield {'actions': [['start', 0], ['start', 1], ['next', 0], ['next', 1], [kind_, g, how], ['next', 1 - g], ['read', 9]], 'finish': [['exhaust', 1 - g]], 'pset': 0}
+    # a write that is refused (read-only handle, or a read-only block around a read-write handle) while generators are suspended
+    for hmode, pre in (('r', []), ('r', [['enter']]), ('r+', [['enter', 'r']]), ('r', [['enter', 'r']])):
+        for g in (0, 1):
+            acts = pre + [['start', g], ['next', g], ['rowrite', 5, -3], ['next', g], ['read', 9], ['rowrite', 70000, 4], ['badread'], ['next', g]]
+            yield {'actions': acts, 'finish': [['exhaust', g]], 'pset': 0, 'hmode': hmode}
+            yield {'actions': pre + [['start', 0], ['start', 1], ['next', 0], ['next', 1], ['rowrite', 5, -3], ['next', 1 - g], ['close', g], ['rowrite', 6, 1], ['next', 1 - g]],
+                   'finish': [['exhaust', 1 - g]], 'pset': 3, 'hmode': hmode}
     # a fine-grained generator advanced thousands of times while a coarse one is suspended mid-way, then the coarse one goes on
     for fine, nadv in ((1, 4200), (1, 9000), (2, 5000)):
         acts = [['start', 0], ['next', 0], ['start', fine], ['nextn', fine, nadv], ['next', 0], ['read', 5], ['nextn', fine, 100], ['next', 0]]
